@@ -197,6 +197,16 @@ func (m *model) execute(a string) (string, error) {
 		return cli("label")
 	case "wipe":
 		return cli("wipe")
+	case "ls-linked":
+		// the same binary, started from the linked worktree of the host
+		r, err := run(filepath.Join(filepath.Dir(m.host()), "linked"), 60*time.Second, m.p.GitBug, "bug", "new", "-t", "from the linked worktree", "-m", "message", "--non-interactive")
+		if err != nil {
+			return "", err
+		}
+		if r.Code != 0 && starved(r.Err) {
+			return "", fmt.Errorf("git-bug could not start a process (machine overloaded): %s", tidy(r.Err))
+		}
+		return cliOutcome(r), nil
 	case "comment-edit":
 		s.Edits++
 		if b == nil {
